@@ -77,3 +77,16 @@ def cases(tier, seed, ctx=None):
             reqs.append([n, [] if sp is None else [[b"Range", sp]]])
             metas.append([8, 0, cnt])
         yield ("fsm", [tree, b"@BASE@/root", reqs, ver, metas], "one-handler-history")
+    # long histories in a process with few spare descriptors (the harness lowers RLIMIT_NOFILE for histories of more than 50
+    # requests): files of size 0, 1 and more, whole and ranged; every answer must still be the file
+    for j in range(2 if tier == "quick" else 10):
+        files = [(b"empty", b""), (b"one", b"x"), (b"f.bin", rng.bytes(rng.range(2, 12)))]
+        tree = [[b"root/" + n, 0, cnt] for n, cnt in files]
+        reqs, metas = [], []
+        fav = files[j % 3]
+        for i in range(70):
+            n, cnt = fav if i % 5 else rng.choice(files)
+            sp = rng.choice([None, None, None, b"bytes=0-0", b"bytes=1-", b"bytes=-1"])
+            reqs.append([n, [] if sp is None else [[b"Range", sp]]])
+            metas.append([8, 0, cnt])
+        yield ("fsm", [tree, b"@BASE@/root", reqs, ver, metas], "long-history-few-descriptors")
